@@ -171,22 +171,7 @@ def scenario(params, ch):
             w.run_until_connected()
         w.run(2)
         if start == "near-wrap":
-            c, s = w.clients[0].conn, w.server_conn(0)
-            # 65530 datagrams take >= 18 minutes at the protocol's rate cap: move the clock (and every stored
-            # time stamp) accordingly, otherwise the preset itself would put seq 1, 2 into the handshake's second
-            shift = 65530 / 60.0
-            w.vt.now += shift
-            for x in (c, s):
-                x.last_recv_time += shift
-                x.last_send_time += shift
-                x.last_send_keep_alive_time += shift
-            for a, b in ((c, s), (s, c)):
-                a.seq_sending = SeqNum(65530)
-                a.pending_acks = {}
-                a.pending_callbacks = {}
-                a.pending_retry = {}
-                b.bitfield_pkt.current_seqnum = SeqNum(65530)
-                b.bitfield_pkt.bits = 0xFFFFFFFF
+            w.preset_near_wrap(msg_seq=0)
         w.fates = ["drop", "dup", "delay8"]
         for step in program:
             do_step(w, dm, step)
@@ -321,7 +306,7 @@ def run(tier, seed):
     if seed:
         k = seed % len(plist)
         plist = plist[k:] + plist[:k]
-    st = explore.explore_all("checks.c03", "scenario", plist, 1, time_budget=(200 if tier == "quick" else 2400))
+    st = explore.explore_all("checks.c03", "scenario", plist, 1, time_budget=(1000 if tier == "quick" else 4800))
     acc = {}
     sig_counts = getattr(st, "sig_counts", {})
     for v in st.violations:
